@@ -149,6 +149,29 @@ def static_check(inv: Inv, rec: Recorder):
             seen_attr.setdefault(d.attr_name, i)
             seen_key.setdefault(key, d.attr_name)
             rec.case(fp("static", k.__name__, i), [f"static:{kind}"])
+    # attributes the class declares to its users (annotations in the class body) that no definition backs: setting
+    # one produces no AVP and a received AVP never reaches it (the repository's own tests/test_annotations.py asserts
+    # "annotated => defined", but only walks the direct subclasses of the typed base, not the Request/Answer classes)
+    from diameter.message import DefinedMessage
+    framework = set()
+    for c in DefinedMessage.__mro__:
+        framework |= set(getattr(c, "__annotations__", {}))
+    framework |= {"avp_def", "additional_avps"}
+    n_decl = 0
+    for k in inv.msgs + list(inv.conts.values()):
+        defined = {getattr(d, "attr_name", None) for d in k.avp_def}
+        for a in inv.annotations(k):
+            if a in framework or a.startswith("_"):
+                continue
+            n_decl += 1
+            if a not in defined:
+                import difflib
+                near = difflib.get_close_matches(a, sorted(x for x in defined if x), n=1, cutoff=0.85)
+                rec.violation(f"C03/static/declared-without-definition/{k.__name__}.{a}", {"class": k.__name__, "attr": a},
+                              f"{k.__name__} declares attribute {a!r} but none of its {len(k.avp_def)} definitions is named so: "
+                              f"setting it encodes nothing and no received AVP is assigned to it"
+                              + (f" (a definition named {near[0]!r} exists)" if near else ""))
+    rec.extra["declared_attributes_checked"] = n_decl
     for k in inv.msgs + list(inv.conts.values()):
         inv.defs(k)
     for cname, why in sorted(inv.bad_classes.items()):
